@@ -1034,6 +1034,27 @@ func (c *Ctx) specCall(env *SpecEnv, e *SExpr) Value {
 		case "isNil":
 			evalArgs()
 			return c.isNil(env, args[0])
+		case "sameslice":
+			evalArgs()
+			a, ok1 := args[0].(SliceV)
+			b, ok2 := args[1].(SliceV)
+			if !ok1 || !ok2 {
+				specError("sameslice needs slices")
+			}
+			if a.Heap && b.Heap {
+				return And(Eq(a.Ref, b.Ref), Eq(a.Off, b.Off), Eq(a.Len, b.Len))
+			}
+			if !a.Heap && !b.Heap {
+				return BoolT(a.Obj == b.Obj && a.COff == b.COff && a.CLen == b.CLen)
+			}
+			ha, hb := a, b
+			if !a.Heap && a.Obj == nil {
+				return Eq(hb.Ref, IntC(0))
+			}
+			if !b.Heap && b.Obj == nil {
+				return Eq(ha.Ref, IntC(0))
+			}
+			return False()
 		case "has":
 			evalArgs()
 			m, ok := args[0].(MapV)
@@ -1048,6 +1069,9 @@ func (c *Ctx) specCall(env *SpecEnv, e *SExpr) Value {
 			return present
 		case "calls":
 			// calls(Name): number of logged calls whose callee matches
+			if env.st.CutLoops > 0 {
+				specError("calls() counts are not meaningful once a loop has been cut")
+			}
 			n := 0
 			name := e.Args[1].Name
 			if e.Args[1].Kind == "str" {
